@@ -92,6 +92,31 @@ BUILT = {
             "after asm_set_offset must give the same return value, offset, bytes and count as on a fresh instance",
             "user-visible settings = last value per option dimension + last asm_set_chunk_size",
             "DESIGN.md section 6, C15"),
+    "C10": ("model_checking",
+            "bounded-exhaustive enumeration of malformed inputs on the real assembler: every named mnemonic x all 781 "
+            "operand-kind tuples, every single-character mutation of register names in 5 positions, invalid scales, "
+            "stack-pointer index placements, bracket / empty-operand / after-immediate forms, every byte 0x7f-0xff at every "
+            "position of 12 lines, each at several program positions; must-reject set from a kind-level ISA table",
+            "every must-reject line has to return EXIT_FAILURE and leave the buffer untouched from the line's start on; "
+            "tuples x86-64 defines but the library does not support carry no demand (counted)",
+            "the must-reject table (mc/props/c10.py) is the kind-level projection of the Intel SDM; a token starting with a "
+            "digit is a number, not a misspelt register", "DESIGN.md section 6, C10"),
+    "C11": ("model_checking",
+            "bounded-exhaustive enumeration over all 12 option combinations on the real assembler: (i) mov r64, imm for 16 "
+            "registers x value alphabet x spellings with decode rules per mode and nasm cross-check, (ii) all stack-pointer-"
+            "index and no-base shapes with literal-encoding / address rules, (iii) byte equality of every other corpus line "
+            "under all 12 combinations",
+            "the option state space (12) x the complete line sets is executed; narrowing happens exactly when documented, "
+            "SIB rewritings only under their option, everything else is byte-identical under all options",
+            E1_NOTE + "; nasm -Ox is the reference for 'as nasm does'", "DESIGN.md section 6, C11"),
+    "C16": ("model_checking",
+            "bounded-exhaustive enumeration of spelling rewritings (each of 13 alone, 10 line wrappers, all pairs, all "
+            "together; thorough: all 2^10 combinations and every insertion position of non-code lines) over one line per "
+            "operand-class pattern of the corpora, on the real assembler; byte equality with the base spelling",
+            "relational (two runs of the implementation), immune to encoding defects; mov r64, imm lines run in NASM and "
+            "STRICT mov-immediate modes only (the documented SMART exception is C11's)",
+            "rewritings are applied to lines rendered by the check itself (known token structure); tabs only next to an "
+            "existing separator", "DESIGN.md section 6, C16"),
     "C12": ("model_checking",
             "explicit-state BFS over the real setter API to a fixpoint, lockstep with a documentation model; plus all "
             "setter sequences up to depth 3/4 and all two-instance interleavings up to depth 2/3, exhaustively",
